@@ -80,7 +80,7 @@ X = [
     "$$m$$\n", "(t)=\npara t\n", "x[^f]\n\n[^f]: foot\n", "[r]: http://u\n\n[a][r]\n", "```{tip}\ninner\n```\n", "{abbr}`x (y)`\n", "% c\n", "+++\n",
     "Term\n: def\n", ":f: v\n", "{nosuchrole}`x`\n", "```{nodir}\n```\n", ":::{tip}\ncolon inner\n:::\n", "- [ ] task\n\n  para in item\n",
     "line one  \nline two\n", "```\ncode with trailing blanks  \n\n```\n", "    indented code  \n", "> quoted  \n> second\n",
-    "\ttab indented code\n", "```\na\tb\n```\n", "- li\n\n\ttab continuation\n", "para with\ttab\n",
+    "lead\n\n---\n\ntail\n", "\ttab indented code\n", "```\na\tb\n```\n", "- li\n\n\ttab continuation\n", "para with\ttab\n",
 ]
 
 
@@ -103,6 +103,8 @@ class Wrappers:
         yield "note``````", "``````{note}\n" + x + "``````\n", lambda doc: doc[0].children, None, True
         yield "note:::", "::::{note}\n" + x + "::::\n", lambda doc: doc[0].children, None, True
         yield "note::::::", "::::::{note}\n" + x + "::::::\n", lambda doc: doc[0].children, None, True
+        yield "epigraph", "````{epigraph}\n" + x + "````\n", lambda doc: doc[0].children, None, True
+        yield "pull-quote:::", "::::{pull-quote}\n\n" + x + "::::\n", lambda doc: doc[0].children, None, False
         yield "adm-opts", "````{admonition} T\n:class: c\n\n" + x + "````\n", lambda doc: doc[0].children[1:], None, False
         yield "adm-opts-colon", "::::{admonition} T\n:class: c\n\n" + x + "::::\n", lambda doc: doc[0].children[1:], None, False
         yield "adm-yaml", "````{admonition} T\n---\nclass: c\n---\n" + x + "````\n", lambda doc: doc[0].children[1:], None, False
@@ -127,7 +129,7 @@ class TransparencySystem(System):
         self.k = 2 if tier == "quick" else 3
         self.xs = X if tier == "quick" else X
         self.description = (f"all sequences of <= {self.k} blocks over {len(X)} non-heading block symbols x 15 wrappers (fences ```/``````/:::/::::::, "
-                            "option blocks, nesting 2/3/4 deep alternating fence kinds, include with/without front matter and inside a note, block substitution)")
+                            "option blocks, epigraph / pull-quote (MyST's own block-quote splitter), nesting 2/3/4 deep alternating fence kinds, include with/without front matter and inside a note, block substitution)")
 
     def prepare(self, ctx):
         self.dir = ctx.scratch / "c06"
@@ -137,7 +139,7 @@ class TransparencySystem(System):
         self.wrap = Wrappers(self.dir, f"-{wid}")
 
     def bounds(self):
-        return {"blocks": self.k, "symbols": len(X), "wrappers": 15}
+        return {"blocks": self.k, "symbols": len(X), "wrappers": 17}
 
     def alphabet(self):
         return X
@@ -225,7 +227,7 @@ class DefinitionSystem(System):
         for dk in ("footnote", "refdef", "target", "attr-target"):
             for w in DEF_WRAPS:
                 for uc in USE_CTX:
-                    for order in ("after", "before"):
+                    for order in ("after", "before", "both"):
                         for filler in ("", "filler para\n"):
                             yield [dk, w, uc, order, filler]
 
@@ -240,6 +242,10 @@ class DefinitionSystem(System):
         if order == "after":
             wrapped = "PRE\n\n" + wtext + "\n" + use_md + "\nPOST\n"
             inplace = "PRE\n\n" + body + "\n" + use_md + "\nPOST\n"
+        elif order == "both":
+            # the SAME use text before and after the definition: only the later one is judged (the earlier one is the 'before' case)
+            wrapped = "PRE\n\n" + use_md + "\n" + wtext + "\n" + use_md + "\nPOST\n"
+            inplace = "PRE\n\n" + use_md + "\n" + body + "\n" + use_md + "\nPOST\n"
         else:
             wrapped = "PRE\n\n" + use_md + "\n" + wtext + "\nPOST\n"
             inplace = "PRE\n\n" + use_md + "\n" + body + "\nPOST\n"
@@ -266,8 +272,9 @@ class DefinitionSystem(System):
         # resolved-ness summary, robust against id renumbering
         def summary(doc):
             out = []
-            for p in doc.findall(nodes.paragraph):
-                if p.astext().startswith("use "):
+            uses = [p for p in doc.findall(nodes.paragraph) if p.astext().startswith("use ")]
+            for p in (uses[-1:] if order == "both" else uses):
+                if True:
                     for n in p.findall(lambda n: isinstance(n, (nodes.reference, nodes.footnote_reference, nodes.problematic))):
                         tgt = None
                         if n.get("refid"):
@@ -279,7 +286,7 @@ class DefinitionSystem(System):
         sa, sb = summary(A), summary(B)
         if sa != sb or (ua is None) != (ub is None):
             # the use is tokenised before the wrapper's content is rendered unless it sits in a later directive body
-            early = not (uc == "tip" and order == "after")
+            early = not (uc == "tip" and order in ("after", "both"))
             kind = "include" if wname.startswith("include") else "substitution"
             viol.append(violation("definitions", {"clause": "definitions", "definition": dk, "wrapper": kind, "use_tokenised_before_wrapper": early},
                                   f"{dk} defined inside {wname}, used {order} it ({uc}): use resolves as {sa}, in place as {sb}",
